@@ -21,6 +21,15 @@ def shapes(rnd):
     out.append([("seq", [("alt", [w("--x=", ["a", "b"], "dx"), w("--y=", ["c", "d"], "dy")]), ("alt", [L("p", "dp"), L("q")]), C("echo z")])])
     out.append([("seq", [L("first"), ("sub", [L("--o="), ("alt", [L("a"), ("seq", [L("b"), ("opt", L("c"))])])]), ("sub", [L("--r="), ("alt", [L("d"), ("seq", [L("e"), ("opt", L("f"))])])])])])
     out.append([("seq", [R("PATH"), R("DIRECTORY"), ("sub", [L("--f="), R("PATH")])])])
+    # same-shaped within-word expressions whose `||` levels sit at different literal indexes (literals are listed by decreasing
+    # length and text inside each expression): a shared table set must not be used for them
+    fbw = lambda pre, vals: ("sub", [L(pre), ("fb", [L(v) for v in vals])])
+    out.append([("alt", [fbw("--a=", ["foo", "bar"]), fbw("--b=", ["baz", "qux"])])])
+    out.append([("alt", [fbw("--a=", ["foo", "ba"]), fbw("--b=", ["ba", "foo"]), fbw("--c=", ["x", "yy", "zzz"]), fbw("--d=", ["zzz", "x", "yy"])])])
+    out.append([("seq", [("alt", [("sub", [L("-p"), ("alt", [("fb", [L("1"), L("22")]), L("333")])]), ("sub", [L("-q"), ("alt", [("fb", [L("22"), L("1")]), L("333")])])]), L("z")])])
+    # a command inside a word and no command at top level (and the converse)
+    out.append([("seq", [("sub", [L("--user="), C("echo alice")]), L("done")])])
+    out.append([("seq", [("sub", [L("--k="), ("alt", [L("a"), L("b")])]), C("echo top")])])
     return out
 
 
